@@ -3,6 +3,33 @@
 import json, subprocess
 
 BUILT = {
+ "C02": ("exploration", "guarded probes at every unchecked VM access (natural and forced-branch runs) + offline all-paths checker over the bytecode the real compiler emitted, validated against instruction traces of the real VM",
+         "Every accepted text (directed corpus, enumerated programs, random programs, token mutants and soups that compile) is run with a probe in front of each unchecked access of the VM, naturally and under forced branch schedules, and its emitted bytecode is checked offline on all control-flow paths (decode, jump targets, function regions, minimum stack height, operand ranges); every traced instruction must lie inside the statically computed height range. Held on the bytecode seen.",
+         "the offline checker is a monitor over recorded compiler output, not a proof about the compiler; accesses inside Vec/String/bitvec are left to the sanitizer passes", "6.2"),
+ "C03": ("exploration", "shadow heap (liveness checked at every dereference, double-release detection) + reachability post-condition at the end of every GC::run + direct driver of the collector against a reachability model + valgrind memcheck on the hook-free binary",
+         "Allocating programs (directed heap shapes, heap/calls profile random programs) run under a quarantine shadow heap; at every collection the set reachable from the roots must stay allocated with unchanged content; the collector is also driven directly with all operation sequences up to a bound and random longer ones; the directed corpus runs under valgrind on the un-instrumented binary. Held on the collections observed.",
+         "the shadow heap sees Float/String/Array boxes; the buffers inside them are covered by valgrind/ASan only", "6.3"),
+ "C04": ("fault_enumeration", "allocation ledger audited after every run and after every abort point k (instruction budget hook) + managed-set post-condition at every GC::run + collector driver + valgrind leak check",
+         "For every program the run is repeated with an error injected after k instructions for every k up to its length (selected k for long runs); after each exit path, and after the harness released each distinct object of the result graph once, the ledger must be empty and nothing released twice; after every collection the managed set must equal managed-before intersected with reachable. Held on the abort points enumerated.",
+         "fault = abort after exactly k dispatched instructions, through the same return path a run-time error takes", "6.4"),
+ "C09": ("exploration", "runtime differential monitor (reference scoping model) + metamorphic monitors: alpha-renaming, padding with unused/shadowing declarations, injection of an undeclared name",
+         "Directed scoping cases and scopes-profile random programs are compared with the reference model; each program is also compared with its renamed and padded variants (same outcome) and with variants in which one identifier use is replaced by an undeclared name (reference error before any output). Held on the programs and variants run.",
+         "closures and self-initialisers are unspecified (4.3) and filtered out", "6.9"),
+ "C10": ("exploration", "metamorphic runtime monitor: a program vs its transformed variants (globals to locals, literal to variable, mirrored operands, constant-pool perturbation); no reference interpreter in the oracle",
+         "Each closed program is executed together with up to nine variants that differ only in how the compiler implements it; value, output and error kind must be equal; every fused opcode must be dispatched. Held on the program/variant pairs run.",
+         "the reference interpreter is used only to filter out programs with unspecified meaning", "6.10"),
+ "C11": ("exploration", "runtime differential monitor on an enumerated template space + residue monitors (iteration-count sweep, operand-stack height at loop heads from the instruction trace)",
+         "Nests of depth 1-3 over block/if/else-if/while with every early-exit placement are compared with the reference model (complete in the thorough tier); 16 loop bodies are run for 0 to 70 000 iterations and the code after the loop must behave identically; traced stack heights at loop heads must not change between iterations. Held on the templates and runs executed.",
+         "value of a loop that ran is unspecified (4.3(8))", "6.11"),
+ "C12": ("exploration", "runtime differential monitor (reference model) + frame-discipline monitor over the instruction trace (base pointer, frame count, stack height at Call/Return) + limit cases",
+         "Directed call shapes and calls-profile random programs are compared with the reference; from the trace the callee's base pointer must sit exactly at its first argument and the caller's frame count, base pointer and height must be restored after every return; recursion/argument/local/code-size limits must give the exact value or an error. Held on the calls traced.",
+         "limit cases use the weaker oracle 'exact value or an error'", "6.12"),
+ "C16": ("exploration", "item-by-item agreement of four execution contexts: fresh process per item, shuffled/repeated in one process with failing evaluations in between, 16 threads, debug build",
+         "One batch of generated programs is evaluated in a fresh process each, repeatedly in random orders inside a long-lived process, concurrently from 16 threads with random delays, and by the debug-assertion build; the renderings must agree. Held on the interleavings and histories produced.",
+         "only the two Cargo profiles are compared; thread-sanitizer / Miri passes are part of the thorough tier when their builds are available", "6.16"),
+ "C17": ("fault_enumeration", "retained Compiler+VM driven like the prompt; reference session model + eval() of the concatenated successful lines + carry-over and shadow-heap monitors; every line cut after every k instructions",
+         "All sessions of up to 3 lines over a 14-line alphabet (strided at length 3 in the quick tier), random sessions of 4-12 lines and directed ones; lines fail at parse, compile and run time, and every line of the alphabet sessions is cut after every k instructions, after which following lines probe the state: it must equal a prefix of the line's assignments. Held on the sessions and cuts enumerated.",
+         "results handed out by a line are not released by the harness; referring to names declared by a run-time-failed line is unspecified (4.3(16))", "6.17"),
  "C01": ("exploration", "runtime differential monitor: executable reference interpreter (DESIGN §4) evaluated on the tree the real parser returned vs eval() under probes, quarantine shadow heap and instruction budget",
          "Every enumerated program up to a node budget and seeded type-directed random programs (6 profiles, injected faults) are executed by the real pipeline and by a definitional tree-walking interpreter; value, captured output and error kind must agree; documented example outputs are checked directly. Held on the programs run; unspecified behaviours (DESIGN 4.3) are skipped and counted.",
          "trusts harness/src/refsem.rs as the definition (cross-checked each run against documented outputs)", "6.1"),
@@ -68,7 +95,7 @@ manifest = {
         "kind_free_text": "Rust harness: supervisor + worker processes running the real interpreter under hooks (print capture, instruction budget, guarded probes, shadow heap, GC callbacks); reference-model, metamorphic and offline-log oracles; debug/ASan/Miri/valgrind passes",
     }],
     "checks": checks,
-    "not_applicable": [{"property_id": p, "reason": "check under construction in this session (not a claim that runtime monitoring cannot apply)"} for p in ALL if p not in BUILT],
+    "not_applicable": [{"property_id": p, "reason": "check under construction (not a claim that runtime monitoring cannot apply)"} for p in ALL if p not in BUILT],
     "notes": "Technique family: runtime monitoring and sanitizers. ./check <id> quick|thorough; VERIF_SEED seeds every random choice. Exit 0 held / 1 VIOLATION / 2 inconclusive / 3 build failure. Known findings: /verif/known_findings.json.",
 }
 json.dump(manifest, open("/verif/MANIFEST.json", "w"), indent=1)
